@@ -766,6 +766,49 @@ func emptyKnown(p *ir.Path, fn *ssa.Function) bool {
 	return false
 }
 
+// lastChildWithoutGuard: the path reads f.Seq[len(f.Seq)-1] (the last child) although it has not excluded the empty
+// child list - with no children the index is -1 and the process panics. Returns the offending step.
+func lastChildWithoutGuard(p *ir.Path, fn *ssa.Function) *ir.Step {
+	recv := &ir.Term{Op: "param", Aux: fn.Params[0].Name()}
+	seq := &ir.Term{Op: "load", Aux: "0", Args: []*ir.Term{{Op: "faddr", Aux: "Seq", Args: []*ir.Term{recv}}}}
+	l := &ir.Term{Op: "len", Args: []*ir.Term{seq}}
+	excluded := false
+	for i := range p.Steps {
+		st := &p.Steps[i]
+		if st.Kind == ir.KBranch && mentions(st.Atom, l) {
+			at0 := ir.Rebuild(substTerm(st.Atom, l, ir.Const("0")))
+			if at0.IsConst() && (at0.Aux == "true" || at0.Aux == "false") && (at0.Aux == "true") != st.Pol {
+				excluded = true
+			}
+		}
+		if excluded {
+			continue
+		}
+		reads := false
+		visit := func(t *ir.Term) {
+			if t == nil {
+				return
+			}
+			t.Walk(func(x *ir.Term) {
+				if x.Op == "iaddr" && len(x.Args) == 2 && ir.Same(x.Args[0], seq) {
+					if k, ok := linOffset(x.Args[1], l); ok && k < 0 {
+						reads = true
+					}
+				}
+			})
+		}
+		for _, a := range st.A {
+			visit(a)
+		}
+		visit(st.R)
+		visit(st.Atom)
+		if reads {
+			return st
+		}
+	}
+	return nil
+}
+
 func deferredAtom(fn *ssa.Function) *ir.Term {
 	return &ir.Term{Op: "load", Aux: "0", Args: []*ir.Term{{Op: "faddr", Aux: "Deferred", Args: []*ir.Term{{Op: "param", Aux: fn.Params[0].Name()}}}}}
 }
@@ -908,6 +951,10 @@ func appendDiscipline(c *core.Ctx) {
 				ok = false
 				c.Fail("append-discipline", name, lastPos(p), "the last child is a nested sequence but it is not offered the node first (the node would land one level too shallow)")
 			}
+			if st := lastChildWithoutGuard(p, fn); st != nil {
+				ok = false
+				c.Fail("append-discipline", name, st.Pos(), "the last child is read although the child list may be empty (index -1): appending to a fresh context panics")
+			}
 			if lastIsSeq == 0 && len(rec) == 0 && !emptyKnown(p, fn) {
 				ok = false
 				c.Fail("append-discipline", name, lastPos(p), "the node is appended at this level without having looked at the last child (neither found the child list empty nor found the last child not to be a nested sequence): with an open nested context it lands one level too shallow")
@@ -1018,6 +1065,10 @@ func unitDiscipline(c *core.Ctx) {
 			if lastIsSeq > 0 && len(rec) == 0 {
 				ok = false
 				c.Fail("unit-discipline", name, lastPos(p), "the last child is a nested sequence but it is not asked to close first")
+			}
+			if st := lastChildWithoutGuard(p, fn); st != nil {
+				ok = false
+				c.Fail("unit-discipline", name, st.Pos(), "the last child is read although the child list may be empty (index -1): closing a fresh context panics")
 			}
 			if lastIsSeq == 0 && len(rec) == 0 && !emptyKnown(p, fn) {
 				ok = false
